@@ -141,8 +141,8 @@ func reportTypecheck(c *Check, rs []*suiteResult) {
 			for _, ct := range tv.Contracts {
 				msgs = append(msgs, ct)
 			}
-			if tv.em != nil && fmt.Sprint(tv.em.JumpsDry) != fmt.Sprint(tv.em.JumpsReal) {
-				msgs = append(msgs, fmt.Sprintf("labels marked used in the dry pass %v differ from the labels jumped to in the real pass %v", tv.em.JumpsDry, tv.em.JumpsReal))
+			if tv.em != nil && tv.em.labelParity() != "" {
+				msgs = append(msgs, "label parity: "+tv.em.labelParity())
 			}
 			for _, w := range tv.Warnings {
 				if strings.Contains(w, "illegal node type") || strings.Contains(w, "internal error") {
